@@ -29,6 +29,8 @@ class Module:
             raise AnalysisError(f"cannot parse {rel}: {e}")
         _normalise_annotations(self.tree)
         _strip_noops(self.tree)
+        if os.environ.get("COBASTATIC_CANON_CMP", "1") != "0":
+            _normalise_comparisons(self.tree)
         for parent in ast.walk(self.tree):
             for child in ast.iter_child_nodes(parent):
                 child._parent = parent  # type: ignore[attr-defined]
@@ -90,6 +92,43 @@ def _normalise_annotations(tree: ast.AST) -> None:
                 if not out:
                     out = [ast.copy_location(ast.Pass(), b[0])]
                 b[:] = out
+
+
+_SWAP = {ast.Lt: ast.Gt, ast.Gt: ast.Lt, ast.LtE: ast.GtE, ast.GtE: ast.LtE, ast.Eq: ast.Eq, ast.NotEq: ast.NotEq}
+
+
+def _is_literal(e) -> bool:
+    if isinstance(e, ast.Constant):
+        return True
+    if isinstance(e, ast.UnaryOp) and isinstance(e.operand, ast.Constant):
+        return True
+    if isinstance(e, (ast.List, ast.Tuple, ast.Set)):
+        return all(_is_literal(x) for x in e.elts)
+    if isinstance(e, ast.Dict):
+        return all(k is not None and _is_literal(k) for k in e.keys) and all(_is_literal(v) for v in e.values)
+    return False
+
+
+def _normalise_comparisons(tree: ast.AST) -> None:
+    """One orientation for every single-operator order / equality comparison, so that `a < b` and `b > a` (or `x == 1` and `1 == x`)
+    are the same to every rule: a constant operand goes to the right; otherwise the operand whose source text sorts first goes to the left.
+    Exchanging the operands of ==, !=, <, <=, >, >= (with the mirrored operator) does not change the value of a comparison."""
+    for n in ast.walk(tree):
+        if isinstance(n, ast.Compare) and len(n.ops) == 1 and type(n.ops[0]) in _SWAP:
+            l, r = n.left, n.comparators[0]
+            lc, rc = _is_literal(l), _is_literal(r)
+            if lc and not rc:
+                flip = True
+            elif rc and not lc:
+                flip = False
+            else:
+                try:
+                    flip = ast.unparse(l) > ast.unparse(r)
+                except Exception:  # pragma: no cover
+                    flip = False
+            if flip:
+                n.left, n.comparators = r, [l]
+                n.ops = [_SWAP[type(n.ops[0])]()]
 
 
 def _strip_noops(tree: ast.AST) -> None:
